@@ -72,8 +72,8 @@ type specEvent struct {
 }
 
 type specWatchReq struct {
-	Start  int64  `json:"start"`
-	Prefix int    `json:"prefix"`
+	Start  int64 `json:"start"`
+	Prefix int   `json:"prefix"`
 }
 
 type specFinal struct {
@@ -91,11 +91,11 @@ type specFinal struct {
 }
 
 type behaviour struct {
-	KInit []string            `json:"kinit"`
-	WOps  map[string][]specOp `json:"wops"`
-	XReq  json.RawMessage     `json:"xreq"`
-	Steps []specStep          `json:"steps"`
-	Final specFinal           `json:"final"`
+	KInit []string               `json:"kinit"`
+	WOps  map[string][]specOp    `json:"wops"`
+	XReq  json.RawMessage        `json:"xreq"`
+	Steps []specStep             `json:"steps"`
+	Final specFinal              `json:"final"`
 	Cfg   map[string]interface{} `json:"cfg"`
 	raw   string
 }
